@@ -622,7 +622,7 @@ class Interp:
             target_fn = None
             recv = None
             if isinstance(fv, BoundMethod):
-                target_fn, recv = fv.func, fv.recv
+                target_fn, recv = unwrap_function(fv.func), fv.recv
             elif callable(fv) and hasattr(fv, "__wrapped__"):
                 target_fn = unwrap_function(fv)
             if target_fn is not None and isinstance(target_fn, types.FunctionType):
